@@ -249,6 +249,9 @@ def finish(mod, tier, seed, total, nshards, wall):
     os.makedirs(os.path.join(OUT, "replays"), exist_ok=True)
     os.makedirs(os.path.join(OUT, "evidence"), exist_ok=True)
     findings = load_findings()
+    for old in os.listdir(os.path.join(OUT, "replays")):
+        if old.startswith(mod.ID + "-") or old.startswith("KNOWN-" + mod.ID + "-"):
+            os.unlink(os.path.join(OUT, "replays", old))  # witnesses of earlier runs of this check
     lines = []
     n = 0
     for (sub, cls), (cnt, case, msg, _size) in sorted(total.viol.items(), key=lambda kv: (kv[0][0], kv[0][1])):
